@@ -52,6 +52,8 @@ Seeds ==
          {<<x, y>> : x \in {NewArgs("align", NUCLEOTIDS, p, <<>>) : p \in {0, 1, 2}}
                           \cup {NewArgs("align", NUCLEOTIDS, p, <<Row(nA, <<65, 67>>), Row(nB, <<65, 67>>)>>) : p \in {0, 1, 2}}
                           \cup {NewArgs("bag", NUCLEOTIDS, p, <<Row(nA, <<65>>), Row(nC, <<65, 67, 97>>)>>) : p \in {0, 2}}
+                          \* a name next to the name its first duplicate would get (a, a_0001): the next duplicate is a_0002
+                          \cup {NewArgs(k, NUCLEOTIDS, p, <<Row(nA, <<65, 67>>), Row(<<97, 95, 48, 48, 48, 49>>, <<71, 71>>)>>) : k \in {"bag", "align"}, p \in {0, 2}}
                           \cup {NewArgs("align", NUCLEOTIDS, 0, <<Row(<<32, 98, 46, 46, 99>>, <<65, 84, 71, 45, 45, 45>>), Row(nA, <<97, 116, 103, 78, 78, 78>>)>>),
                                 NewArgs("align", NUCLEOTIDS, 0, <<Row(nA, <<65, 67, 65, 45, 65>>), Row(nB, <<65, 84, 65, 45, 67>>)>>),
                                 \* a row whose name is the short name another row will get (abcdefgh, abcdef01 at size 8)
@@ -230,8 +232,9 @@ InstC01(h) ==
     \cup {Inst("Sample", r, [nb |-> k, seed |-> 3]) : k \in {0, 1, Len(h[r].rows), Len(h[r].rows) + 1} \cap (IF IsAlign(h[r]) THEN 0..9 ELSE {})}
     \cup (IF IsAlign(h[r])
           THEN {Inst("Clone", r, NoArg), Inst("RemoveGapSeqs", r, [p |-> 1, q |-> 2, ins |-> FALSE])}
-               \* (cleaning an alignment without rows is outside every property's quantifier)
-               \cup (IF Len(h[r].rows) = 0 THEN {} ELSE
+               \* (an alignment without rows - from the start, or emptied by a cleaning of sequences - has no site to remove:
+               \* the call returns; what it reports is not judged)
+               \cup (IF FALSE THEN {} ELSE
                      {Inst("RemoveMajorityCharacterSites", r, [p |-> 3, q |-> 4, ends |-> e, igaps |-> FALSE, ins |-> FALSE]) : e \in Bools}
                      \cup {Inst("RemoveCharacterSites", r, [chars |-> <<65>>, p |-> 1, q |-> 1, ends |-> e, icase |-> FALSE, igaps |-> FALSE, ins |-> FALSE, rev |-> FALSE]) : e \in Bools}
                      \cup {Inst("RemoveGapSites", r, [p |-> 1, q |-> 2, ends |-> e]) : e \in Bools})
@@ -329,7 +332,7 @@ InstC15(h) ==
   \cup {Inst("MaskPositions", r, [ref |-> rf, pos |-> ps, repl |-> rp, nogap |-> ng, noref |-> FALSE]) :
            rf \in {<<>>, <<114, 50>>}, ps \in {<<0, 1>>, <<1, 0>>, <<0, 2, 1>>, <<W - 1>>, <<0, W>>, <<1, 1>>}, rp \in {sGAP, sMAJ, <<>>}, ng \in Bools}
 \* C19: a copy-producing or read-only operation, then a mutation of any live object (original or copy)
-Queries == {"fasta", "phylip", "nexus", "clustal", "stockholm", "paml", "dist", "protdist", "protdist2", "sw", "swatg", "orf", "string", "phaseref", "phasentref"}
+Queries == {"fasta", "fastaseq", "phylip", "nexus", "clustal", "stockholm", "paml", "dist", "protdist", "protdist2", "sw", "swatg", "orf", "string", "phaseref", "phasentref"}
 InstC19(h) ==
   IF Len(hist) = 2 THEN
     UNION {
